@@ -320,3 +320,41 @@ theorem retValue_sound (Γ : Env) (ρ : Store) (hρ : StoreOk Γ ρ) (bs : List 
       exact ⟨w, List.mem_cons_of_mem _ hw, hvw⟩
 
 end Martian.Typing
+
+namespace Martian.Typing
+open Martian.Json Martian.Types
+
+/-! ### the empty environment (top-level call) -/
+
+theorem refType_emptyEnv (e : Exp) : refType emptyEnv e = none := by
+  cases e <;> simp [refType, emptyEnv]
+
+theorem refHoleFree_emptyEnv (t : Ty) (e : Exp) : refHoleFree emptyEnv t e = true := by
+  simp [refHoleFree, refType_emptyEnv]
+
+theorem holeFree_emptyEnv (t : Ty) : ∀ (e : Exp), holeFree emptyEnv t e = true := by
+  induction t using Ty.induct' with
+  | base b => intro e; simp [holeFree, refHoleFree_emptyEnv]
+  | user n => intro e; simp [holeFree, refHoleFree_emptyEnv]
+  | arr t ih =>
+    intro e
+    cases e <;> simp [holeFree, refHoleFree_emptyEnv, List.all_eq_true]
+    intro x _; exact ih x
+  | tmap t ih =>
+    intro e
+    cases e <;> simp [holeFree, refHoleFree_emptyEnv, List.all_eq_true]
+    intro a b _; exact ih b
+  | struct n fs ih =>
+    intro e
+    cases e <;> simp [holeFree, refHoleFree_emptyEnv]
+    rw [holeFreeFields_iff]
+    intro k t hkt e' _
+    exact ih k t hkt e'
+
+theorem bindHoleFree_emptyEnv (t : Ty) (b : Bind) : bindHoleFree emptyEnv t b = true := by
+  cases b with
+  | plain e => simp [bindHoleFree, holeFree_emptyEnv]
+  | split e =>
+    cases e <;> simp [bindHoleFree, refType_emptyEnv, List.all_eq_true, holeFree_emptyEnv]
+
+end Martian.Typing
